@@ -134,9 +134,7 @@ func probeQuery(tag string, bodyLen int) string {
 	q := "//c:" + hxs(tag) + "/ok"
 	if bodyLen > 0 && len(q)+1 < bodyLen {
 		q += "/"
-		for len(q)+1 < bodyLen {
-			q += "x"
-		}
+		q += strings.Repeat("x", bodyLen-1-len(q))
 	}
 	return q
 }
@@ -994,7 +992,9 @@ func genCopy(r *rand.Rand, id string) *Case {
 				continue
 			}
 		case kind < 10:
-			t := []byte("PBDEC")[r.Intn(5)]
+			// any non-COPY message aborts the COPY with a non-nil, non-EOF error - Terminate and
+			// Query included
+			t := []byte("PBDECXQ")[r.Intn(7)]
 			m = typed(t, []byte{0, 0, 0, 0, 0, 0, 0, 0})
 			if !over {
 				xk = append(xk, "k-L"+hxs("unimplemented client message type: "+strconv.Itoa(int(t))))
@@ -1543,15 +1543,44 @@ func genMulti(r *rand.Rand, id string) *Case {
 	}
 	users := []string{"alice", "bob", "carol", "dave"}
 	var ins, pcs []string
+	// variants: (1) clear-text authentication with the password exchanges of the connections
+	// overlapping; (2) connection 0 leaves a failed extended-query batch open (no Sync yet) while
+	// the others run complete cycles; (3) parameters of an array type decoded concurrently (the
+	// codec memoizes its plan in the type map: a shared map shows up under the race detector)
+	variant := r.Intn(6)
+	if variant == 1 {
+		c.Auth = true
+	}
 	for i := 0; i < k; i++ {
 		in := startup(196608, [][2]string{{"user", users[i]}, {"database", "db" + strconv.Itoa(i)}}, true)
+		pc := -1
+		if c.Auth {
+			if r.Intn(3) != 0 {
+				pc = len(in) // phase 1 ends between the startup packet and the password message
+			}
+			in = append(in, msgPassword("ok-"+users[i])...)
+		}
 		in = append(in, msgQuery(probeQuery("first"+strconv.Itoa(i), 0))...)
-		pc := len(in)
+		if variant == 2 && i == 0 {
+			in = append(in, msgParse("broken", "!B"+hxs("boom"), nil)...) // fails: discard until Sync
+			pc = len(in)
+		}
+		if pc < 0 {
+			pc = len(in)
+		}
+		if variant == 2 && i > 0 {
+			pc = 1 << 30 // the whole session runs while connection 0 is still discarding
+		}
 		// same names on every connection, different definitions
 		q := "t,i/25/r:t" + hxs(users[i]) + ",i" + strconv.Itoa(i) + ";s:25,0;c:" + hxs("ROW") + "/ok"
+		params := []bindParam{{v: []byte("p-" + users[i])}}
+		if variant == 3 {
+			q = "t,i/25,1007/r:t" + hxs(users[i]) + ",i" + strconv.Itoa(i) + ";s:25,0;s:1007,1;c:" + hxs("ROW") + "/ok"
+			params = append(params, bindParam{v: []byte("{1,2," + strconv.Itoa(i) + "}")})
+		}
 		name := pick(r, namePool)
 		in = append(in, msgParse(name, q, nil)...)
-		in = append(in, msgBind(name, name, nil, []bindParam{{v: []byte("p-" + users[i])}}, nil)...)
+		in = append(in, msgBind(name, name, nil, params, nil)...)
 		in = append(in, msgDescribe('P', name)...)
 		in = append(in, msgExecute(name, 0)...)
 		if r.Intn(3) == 0 {
@@ -1797,6 +1826,22 @@ func genValues(r *rand.Rand, id string) *Case {
 	script := strings.Join(colspec, ",") + "//" + strings.Join(ops, ";") + "/ok"
 	if simple {
 		in = append(in, msgQuery(script)...)
+	} else if r.Intn(3) == 0 && ncols > 0 {
+		// two portals over one statement, alive at the same time, with opposite result formats:
+		// the one bound FIRST is described and executed after the second Bind
+		other := make([]uint16, ncols)
+		for i := range other {
+			other[i] = 1 - rfmt(i)
+			if letters[i] == 'f' || letters[i] == 'd' {
+				other[i] = 1 // float text format is outside the Lean model
+			}
+		}
+		in = append(in, msgParse("s", script, nil)...)
+		in = append(in, msgBind("first", "s", nil, nil, rf)...)
+		in = append(in, msgBind("second", "s", nil, nil, other)...)
+		in = append(in, msgDescribe('P', "first")...)
+		in = append(in, msgExecute("first", 0)...)
+		in = append(in, msgSync()...)
 	} else {
 		in = append(in, msgParse("", script, nil)...)
 		in = append(in, msgBind("", "", nil, nil, rf)...)
